@@ -66,8 +66,13 @@ def run(ctx):
     n_matrix = int(os.environ.get("VERIF_C12_NMATRIX", "100" if quick else "1000"))
     progs = []      # (name, src, [group construct names], expect_leak, trace)
     cdir = os.path.join(vlib.VERIF, "corpus", "C12")
+    corpus_cause = {}
     for f in sorted(glob.glob(os.path.join(cdir, "*.wa.go"))):
-        progs.append(("corpus:" + os.path.basename(f)[:-6], open(f).read(), None, False, False))
+        # file name: [<root cause>__]<name>.wa.go — a minimised past failure carries the cause it was attributed to
+        base = os.path.basename(f)[:-6]
+        if "__" in base:
+            corpus_cause["corpus:" + base] = base.split("__")[0]
+        progs.append(("corpus:" + base, open(f).read(), None, False, False))
     bodies = [(k,) + v for k, v in c11_progs.LOOP_BODIES.items()]
     per = 4 if quick else 3        # bodies per program: the instrumented runs are the long pole, so spread them
     for j in range(0, len(bodies), per):
@@ -121,8 +126,9 @@ def run(ctx):
                 dist["loops_flagged"] += 1
             else:
                 dist["loops_bounded"] += 1
+            cause = c11_progs.KNOWN_CAUSE.get(construct) or corpus_cause.get(name)
             for kind, text in vs:
-                ctx.violation("%s:%s" % (kind, construct),
+                ctx.violation(("leak:" + cause) if cause else "%s:%s" % (kind, construct),
                               "loop body %s run %s times: %s" % (construct, cps[-1]["label"].split()[2], text),
                               {"program": src, "name": name, "loop": g, "construct": construct,
                                "checkpoints": [{k: c[k] for k in ("label", "live", "live_bytes", "heap_ptr", "leak_at_exit")} for c in cps]})
